@@ -193,6 +193,27 @@ let verdict case impl =
                     xa_page_size = on_of psize; xa_paging = ob_of paging; xa_ts = oz_of ts } in
           let (xl, out) = parse_obs node in
           [TO_exec (nat_of_int node, ext, a, xl, out)]
+        | ["I"; s; node; uc; psize; value; cons; serial; ts; _pseed; _pages] ->
+          (* execute_iter: one model call per page the pager fetched; page j+1 starts from the
+             paging state the answer to page j carried *)
+          let node = int_of_string ("0x" ^ node) in
+          let k = (match fields '/' (next_obs ()) with
+              | ["OI"; k] -> int_of_string ("0x" ^ k)
+              | _ -> failwith "missing OI token") in
+          if k < 1 then failwith "execute_iter sent nothing";
+          let paging = ref None and more = ref true and acc = ref [] in
+          for _j = 1 to k do
+            if not !more then failwith "the pager fetched a page after the last one";
+            let a = { xa_stmt = nat_of_int (int_of_string ("0x" ^ s)); xa_use_cached = (uc = "1");
+                      xa_values = bytes_of_hexstr value; xa_cons = n_of_hex cons; xa_serial = on_of serial;
+                      xa_page_size = on_of psize; xa_paging = !paging; xa_ts = oz_of ts } in
+            let (xl, out) = parse_obs node in
+            (match List.rev xl with
+             | { x_resp = RRows b; _ } :: _ -> paging := b.rb_paging; more := (b.rb_paging <> None)
+             | _ -> more := false);
+            acc := TO_exec (nat_of_int node, ext, a, xl, out) :: !acc
+          done;
+          List.rev !acc
         | ["B"; node; ty; cons; serial; ts; items] ->
           let node = int_of_string ("0x" ^ node) in
           let item i =
